@@ -17,7 +17,8 @@ def workdir():
     if _work is None:
         _work = os.path.join(VERIF, "work", "run-%d" % os.getpid())
         os.makedirs(_work, exist_ok=True)
-        atexit.register(lambda: shutil.rmtree(_work, ignore_errors=True))
+        if not os.environ.get("VERIF_KEEP_WORK"):  # tools/coverage.sh keeps the build directory (gcov notes and data)
+            atexit.register(lambda: shutil.rmtree(_work, ignore_errors=True))
     return _work
 
 
@@ -67,7 +68,7 @@ def build(flavour, main="driver.c", out=None, extra_cflags=(), with_lib=True, li
     out = out or os.path.join(workdir(), "%s-%s" % (os.path.splitext(os.path.basename(main))[0], flavour))
     hdir = os.path.join(VERIF, "harness")
     srcs = (lib_sources() if with_lib else []) + [os.path.join(hdir, main)] + [os.path.join(hdir, e) for e in extra]
-    cmd = [cc] + cflags + ["-D" + GUARD, "-mno-red-zone", "-w", "-I" + os.path.join(REPO, "src")] + list(extra_cflags) + srcs + ld + ["-o", out] + list(libs)
+    cmd = [cc] + cflags + ["-D" + GUARD, "-mno-red-zone", "-w", "-I" + os.path.join(REPO, "src")] + list(extra_cflags) + os.environ.get("VERIF_CFLAGS_EXTRA", "").split() + srcs + ld + ["-o", out] + list(libs)
     r = subprocess.run(cmd, capture_output=True, text=True)
     if r.returncode != 0:
         raise HarnessError("build failed (%s):\n%s\n%s" % (flavour, " ".join(cmd), r.stderr[-3000:]))
